@@ -132,7 +132,7 @@ def run_shard(tier, seed, idx, n, res, tmp):
     from stone.frontend.frontend import specs_to_ir
     from stone.compiler import BackendException
     b = budget(tier)
-    for ci in range(idx, b['specs'], n):
+    for ci in common.case_range(idx, b['specs'], n, res):
         cs = common.case_seed(PROPERTY, seed, ci)
         rnd = random.Random(cs)
         m = gm.generate(cs, profile(ci))
